@@ -1019,3 +1019,49 @@ func (p *Program) BypassExists(fn *ssa.Function, w, d ssa.Instruction, commitAll
 	}
 	return nil
 }
+
+// FlagImplies lifts a guard through boolean flag variables: it matches Flag(v)=true edges for which every
+// definition of v with the constant true is itself reachable only through a pass-edge of g.
+func (p *Program) FlagImplies(fn *ssa.Function, g GuardMatch) GuardMatch {
+	removed := p.PassEdges(fn, g)
+	memo := map[ssa.Value]bool{}
+	return func(ca *CondAtom, truth bool) bool {
+		if ca.Kind != "flag" || !truth {
+			return false
+		}
+		if v, ok := memo[ca.X]; ok {
+			return v
+		}
+		ok := true
+		nTrue := 0
+		seen := map[*ssa.Phi]bool{}
+		var walk func(ph *ssa.Phi)
+		walk = func(ph *ssa.Phi) {
+			if seen[ph] {
+				return
+			}
+			seen[ph] = true
+			for i, e := range ph.Edges {
+				switch y := e.(type) {
+				case *ssa.Phi:
+					walk(y)
+				case *ssa.Const:
+					if y.Value != nil && y.Value.ExactString() == "true" {
+						nTrue++
+						pred := ph.Block().Preds[i]
+						if PathExists(fn, removed, pred.Instrs[len(pred.Instrs)-1], nil) {
+							ok = false
+						}
+					}
+				}
+			}
+		}
+		if ph, isPhi := ca.X.(*ssa.Phi); isPhi {
+			walk(ph)
+		} else {
+			ok = false
+		}
+		memo[ca.X] = ok && nTrue > 0
+		return memo[ca.X]
+	}
+}
